@@ -17,6 +17,6 @@ Separate Extraction
   Lsp.run
   Grammar.parse_pure Grammar.parse_memo
   Responses.xfer_responses
-  EvalIO.run_eval EvalIO.run_eval_lexical EvalIO.run_typing EvalIO.run_strat EvalIO.run_doc EvalIO.run_doc_base
+  EvalIO.run_eval EvalIO.run_eval_lexical EvalIO.run_typing EvalIO.run_strat EvalIO.run_doc EvalIO.run_doc_base EvalIO.run_edges
   Lexer.tokenize Lexer.spans
   Diag.diagnostics.
